@@ -40,13 +40,26 @@ type Ctx struct {
 	BoundsFns map[string]bool // functions whose index/slice obligations were enumerated
 	rules     map[string]int
 	Extra     map[string]interface{}
+	ruleMap   map[string]string
 }
 
 func newCtx(w *World, prop, tier string) *Ctx {
 	return &Ctx{w: w, Prop: prop, Tier: tier, Analysed: map[string]bool{}, BoundsFns: map[string]bool{}, rules: map[string]int{}, Extra: map[string]interface{}{}}
 }
 
+// WithRules runs f with the rule names it uses renamed (a property that depends on the rules of another property
+// imports them under a rule name of its own).
+func (c *Ctx) WithRules(m map[string]string, f func()) {
+	old := c.ruleMap
+	c.ruleMap = m
+	defer func() { c.ruleMap = old }()
+	f()
+}
+
 func (c *Ctx) add(rule, construct, pos, status, detail string, nontrivial bool) {
+	if r, ok := c.ruleMap[rule]; ok {
+		rule = r
+	}
 	c.rules[rule]++
 	c.Obs = append(c.Obs, Ob{Property: c.Prop, Rule: rule, Key: c.Prop + "." + rule + "|" + construct, Pos: pos, Status: status, Detail: detail, NonTrivial: nontrivial})
 }
